@@ -211,8 +211,16 @@ class IRGen:
         if not function:
             for _ in range(rng.randrange(0, 3)):
                 name = self.fresh("w")
-                t, s = self.type_shape() if rng.random() < 0.5 else (None, None)
-                v = ir.Value(name=name, type=t, shape=s, const_value=self.tensor(rng.choice([name, name, None, "other"])))
+                tensor = self.tensor(rng.choice([name, name, None, "other"]))
+                r = rng.random()
+                if r < 0.7:
+                    t, s = ir.TensorType(tensor.dtype), ir.Shape(list(tensor.shape.numpy()))
+                elif r < 0.85:
+                    t, s = self.type_shape()
+                else:
+                    t, s = None, None
+                    self.note("initializer_without_type")
+                v = ir.Value(name=name, type=t, shape=s, const_value=tensor)
                 inits.append(v)
             if inputs and rng.random() < 0.15:
                 v = rng.choice(inputs)  # an input that is also an initializer
@@ -305,7 +313,12 @@ class IRGen:
                 g.inputs.pop(rng.randrange(len(g.inputs)))
             elif op == "register_init":
                 name = self.fresh("w")
-                g.register_initializer(ir.Value(name=name, const_value=self.tensor(name)))
+                tensor = self.tensor(name)
+                if rng.random() < 0.7:
+                    g.register_initializer(ir.Value(name=name, const_value=tensor, type=ir.TensorType(tensor.dtype),
+                                                    shape=ir.Shape(list(tensor.shape.numpy()))))
+                else:
+                    g.register_initializer(ir.Value(name=name, const_value=tensor))
             elif op == "pop_init" and len(g.initializers):
                 g.initializers.pop(rng.choice(list(g.initializers)))
             elif op == "drop_type" and vis:
@@ -498,7 +511,7 @@ def diff_case(part, out: dict, case, flags, world0, model, p1, err, m2) -> None:
         core = None
     if core is not None and bool(out.get("serializable")) != core:
         part.disagree("Serializable: Lean predicate and harness predicate differ", case, out.get("serializable"), core)
-    if sc.serializable_reason(model) is None and not out.get("serializable"):
+    if sc.serializable_reason(model) is None and sc.info_core(model.graph) and not out.get("serializable"):
         part.disagree("oracle gate accepts a model outside the hypothesis of C03_roundtrip", case,
                       out.get("serializable"), "serializable_reason=None")
     part.count(f"lean_serializable={out.get('serializable')}")
